@@ -72,6 +72,7 @@ func propC17(r *Run) {
 		}
 		stored := map[string]string{}
 		admin := map[string]bool{}
+		legacy := map[string]bool{} // password stored before the policy existed
 		// init through the CLI or the agent interface
 		cfgPath := "/etc/whawty/agent0.yaml"
 		w.fs.Put(cfgPath, []byte(cfg.YAML()), 0o600)
@@ -115,16 +116,30 @@ func propC17(r *Run) {
 			}
 			stored["root"], admin["root"] = good, true
 		}
+		// accounts that predate the policy: their (possibly weak) passwords were stored when no
+		// policy was configured; re-submitting such a password under the policy must be refused
+		def17 := cfg.SetMap()[cfg.Default]
+		for i, u := range []string{"legacy1", "legacy2"} {
+			pw := policyPwPool[r.Choose("legacy-pw", len(policyPwPool))]
+			salt := make([]byte, def17.SaltLen())
+			salt[0] = byte(40 + i)
+			w.fs.Put(cfg.BaseDir+"/"+u+".user", []byte(RefWrite(def17, pw, salt, 1000)+"\n"), 0o600)
+			stored[u] = pw
+			legacy[u] = true
+		}
 		a, err := w.bootAgentExisting(cfg, cfgPath, "", "zxcvbn", cond, "")
 		if err != nil {
 			r.Fail("harness/boot", "%v", err)
 		}
 		w.startWeb(a)
-		users := []string{"root", "alice", "bob"}
+		users := []string{"root", "alice", "bob", "legacy1", "legacy2"}
 		n := 4 + r.Choose("nwrites", 10)
 		for k := 0; k < n; k++ {
 			u := users[r.Choose("user", len(users))]
 			pw := policyPwPool[r.Choose("pw", len(policyPwPool))]
+			if cur, ok := stored[u]; ok && r.Choose("same-password", 4) == 0 {
+				pw = cur // re-submit the current password
+			}
 			_, exists := stored[u]
 			op := "update"
 			if !exists {
@@ -181,12 +196,13 @@ func propC17(r *Run) {
 			judge(path, op, u, pw, ok, len(diffNoTmp(before, after)) > 0, semanticOK)
 			if ok {
 				stored[u] = pw
+				delete(legacy, u) // written under the policy now
 			}
 		}
 		// every stored password of the model passes the policy and authenticates
 		for _, u := range sortedKeysA(stored) {
 			pw := stored[u]
-			if !passes(u, pw) {
+			if !passes(u, pw) && !legacy[u] {
 				r.Fail("policy/failing-password-stored/final", "%s has password %s which fails %q", u, simrt.Q(pw), cond)
 			}
 			c := &Call{Kind: "authenticate", Via: "agent", Agent: a.idx, User: u, PW: pw}
